@@ -221,6 +221,26 @@ def r3_discipline(ctx):
                           'the ErrorToken is appended exactly once to Importer.errors',
                           f'{len(apps)} append(s) to self.errors on a handler path'
                           + (f' (appended `{src(apps[0].expr.args[0])[:50]}`)' if apps and apps[0].expr.args else ''))
+    # the row number handed to ErrorToken: starts at 1, +1 exactly once per non-empty row, at the end of the row
+    init = ctx.prog.func(f'{N.IMPORTER}.Importer.__init__')
+    ok1 = any(isinstance(n, ast.Assign) and src(n.targets[0]) == 'self._row_number' and src(n.value) == '1' for n in walk_local(init.node))
+    ctx.check(ok1, 'R3', init.loc, init.qualname, 'row-number-starts-at-1', 'the row counter starts at 1')
+    rows = [n for n in docstring_free(run_.body) if isinstance(n, ast.For)]
+    incs = [n for n in walk_local(run_.node) if isinstance(n, (ast.Assign, ast.AugAssign))
+            and any(src(t) == 'self._row_number' for t in (n.targets if isinstance(n, ast.Assign) else [n.target]))]
+    okr = len(rows) == 1 and len(incs) == 1 and incs[0] is rows[0].body[-1] and (
+        (isinstance(incs[0], ast.Assign) and src(incs[0].value) in ('self._row_number + 1', '1 + self._row_number'))
+        or (isinstance(incs[0], ast.AugAssign) and isinstance(incs[0].op, ast.Add) and src(incs[0].value) == '1'))
+    # no `continue` of the row loop skips it, except the empty-row skip
+    if okr:
+        for p_ in enumerate_paths(rows[0].body[:-1]):
+            if p_.end == 'continue':
+                conds = [src(c) for c, t in p_.conds() if t]
+                if not (len(p_.steps) == 1 and conds and 'len(row)' in conds[0]):
+                    okr = False
+    ctx.check(okr, 'R3', run_.loc, run_.qualname, 'row-number-once-per-row',
+              'the row counter is incremented exactly once per non-empty row, as the last statement of the row loop',
+              f'row counter updates: {[f"{src(i)} @ line {i.lineno}" for i in incs]}: the line number reported with an error drifts')
     # self.errors is written nowhere else in the importer (except __init__)
     imp = ctx.prog.cls(f'{N.IMPORTER}.Importer')
     for f in imp.methods.values():
